@@ -326,6 +326,19 @@ func RealDigits() {}
 // decoded value of the destination's type. Natively the real decoder runs, f is ignored.
 func ModelJSONDecoder(f func(r io.Reader) (interface{}, error)) {}
 
+// JSONStream is what a harness provides for ModelJSONStream: the entry points of
+// encoding/json.Decoder that the library may use.
+type JSONStream interface {
+	Token() (interface{}, error)
+	More() bool
+	Decode(v interface{}) error
+}
+
+// ModelJSONStream makes the engine use the object returned by f in place of every
+// encoding/json.Decoder created with json.NewDecoder (methods Token, More, Decode).
+// Natively the real decoder runs, f is ignored.
+func ModelJSONStream(f func(r io.Reader) JSONStream) {}
+
 // CSVRecords returns the records written through the modelled csv.Writer; the
 // native implementation parses the bytes actually written with encoding/csv.
 func CSVRecords(written []byte) [][]string {
